@@ -4,6 +4,8 @@ package main
 // classify how the host ended. Shared helpers for the per-property oracles.
 
 import (
+	kit "go.amzn.com/lambda/zzverif/verifkit"
+
 	"encoding/json"
 	"fmt"
 	"os"
@@ -113,8 +115,16 @@ func runHostOnce(sc *Scenario) *HostRun {
 		}
 		if len(s) > 6000 {
 			// keep the head of a panic (the message) and the tail
-			if i := strings.Index(s, "panic:"); i >= 0 && i < len(s)-6000 {
-				s = s[i:min(i+3000, len(s))] + "\n...\n" + s[len(s)-3000:]
+			i := strings.Index(s, "panic:")
+			if j := strings.Index(s, "fatal error:"); j >= 0 && (i < 0 || j < i) {
+				i = j
+			}
+			if i >= 0 && i < len(s)-6000 {
+				from := i - 700 // the log line of a log.Panic precedes the panic itself
+				if from < 0 {
+					from = 0
+				}
+				s = s[from:min(i+3000, len(s))] + "\n...\n" + s[len(s)-3000:]
 			} else {
 				s = s[len(s)-6000:]
 			}
@@ -159,8 +169,20 @@ func lastLines(s string, n int) string {
 
 // panicLine extracts the panic message of a dead host, for violation keys and messages.
 func panicLine(stderr string) string {
-	for _, l := range strings.Split(stderr, "\n") {
+	lines := strings.Split(stderr, "\n")
+	for i, l := range lines {
 		if strings.HasPrefix(l, "panic:") || strings.HasPrefix(l, "fatal error:") {
+			if strings.Contains(l, "logrus.Entry") {
+				// log.Panic: the message is in the log line printed just before
+				for j := i - 1; j >= 0 && j >= i-5; j-- {
+					if strings.Contains(lines[j], "[PANIC]") || strings.Contains(lines[j], "level=panic") {
+						if k := strings.Index(lines[j], "(rapid)"); k >= 0 {
+							return "panic: " + strings.TrimSpace(lines[j][k+7:])
+						}
+						return "panic: " + strings.TrimSpace(lines[j])
+					}
+				}
+			}
 			return strings.TrimSpace(l)
 		}
 	}
@@ -312,4 +334,75 @@ func (r *HostRun) diag() string {
 // quarter of the function timeout) that a timeout outcome of an otherwise healthy invocation says nothing.
 func (r *HostRun) starved(timeoutMs int64) bool {
 	return r.Trace != nil && r.Trace.MaxLagMs > float64(timeoutMs)/4
+}
+
+// staleDispatch looks for the history signature of known finding "stale dispatch after reset": the orchestrator starts
+// handling an invocation (platform SetCurrentRequestID, emitted at the start of doInvoke) although that invocation's
+// reservation has already been reset - outside every caller's window, after a reset was requested inside the same
+// window (vhook reset.flowsCancelled), or as a second dispatch inside one window. Only meaningful for sequential callers.
+func staleDispatch(tr *Trace) (bool, string) {
+	type win struct{ iss, ret int64 }
+	var wins []win
+	for i := range tr.Events {
+		e := &tr.Events[i]
+		if e.Actor == "driver" && e.Kind == "issue" && e.Call == "invoke" {
+			w := win{iss: e.Seq, ret: 1 << 62}
+			for j := i + 1; j < len(tr.Events); j++ {
+				x := &tr.Events[j]
+				if x.Actor == "driver" && x.Kind == "return" && x.Call == "invoke" && x.Tag == e.Tag {
+					w.ret = x.Seq
+					break
+				}
+			}
+			if n := len(wins); n > 0 && wins[n-1].ret > w.iss {
+				return false, "" // overlapping callers: not applicable
+			}
+			wins = append(wins, w)
+		}
+	}
+	for i := range tr.Events {
+		e := &tr.Events[i]
+		if e.Kind != "platform" || e.Call != "SetCurrentRequestID" {
+			continue
+		}
+		var w *win
+		for k := range wins {
+			if e.Seq > wins[k].iss && e.Seq < wins[k].ret {
+				w = &wins[k]
+			}
+		}
+		if w == nil {
+			return true, fmt.Sprintf("a dispatch (seq %d, id %v) while no caller was waiting", e.Seq, e.Extra["requestId"])
+		}
+		for j := range tr.Events {
+			x := &tr.Events[j]
+			if x.Seq <= w.iss || x.Seq >= e.Seq {
+				continue
+			}
+			if x.Kind == "hook.hit" && x.Call == "reset.flowsCancelled" {
+				return true, fmt.Sprintf("a dispatch (seq %d) that started after a reset of the same invocation had been requested (seq %d)", e.Seq, x.Seq)
+			}
+			if x.Kind == "platform" && x.Call == "SetCurrentRequestID" {
+				return true, fmt.Sprintf("a second dispatch (seq %d) inside one invocation (first at seq %d)", e.Seq, x.Seq)
+			}
+		}
+	}
+	return false, ""
+}
+
+// attributeStale re-keys the violations of a run whose history shows a stale dispatch, so that they match the known
+// finding and nothing else does. A dead host is never re-keyed.
+func attributeStale(out *kit.Outcome, tr *Trace, prop string) {
+	if len(out.Violations) == 0 || tr == nil {
+		return
+	}
+	if ok, why := staleDispatch(tr); ok {
+		for i := range out.Violations {
+			if strings.Contains(out.Violations[i].Key, "host-died") {
+				continue
+			}
+			out.Violations[i].Msg = "[" + out.Violations[i].Key + "] " + out.Violations[i].Msg + " [history: " + why + "]"
+			out.Violations[i].Key = prop + "/stale-dispatch-after-reset"
+		}
+	}
 }
